@@ -180,6 +180,33 @@ def run(c, a):
                        "exhaustive": True,
                        "rule": "C18: every (convertible root type, structural path to a failure message) of the legacy struct graph; "
                                "C17: every abstract wire class x 9 kinds of invalid content; C18 paths x 9 kinds, plus exact-depth chains, after an over-deep message of the same type"})
+    if c.pid == "C17":
+        # the same repair inside history-event blobs (interceptor/reflection.go tryRepairInvalidUTF8InBlob): every blob path of the
+        # real schema with an invalid failure message in the blob and a namespace that is NOT mapped (the translator has nothing
+        # to change): the blob must still leave the interceptor repaired - decodable, the name untouched
+        import p_schema
+        schema = p_schema.export_schema(c)
+        bobl, _r = p_schema.explore(c, schema, "walk.cfg")
+        blobs = []
+        for o in bobl:
+            if o["leaf"].startswith("ns") and o["inblob"]:
+                for solo in (False, True):
+                    d = dict(o)
+                    d.update(variant="dirty", value="ns-not-mapped", solo=solo, id=len(blobs) + 1)
+                    blobs.append(d)
+        brecs = p_schema.run_obligations(c, blobs, "u8blob")
+        brecs = [r_ for r_ in brecs if not r_.get("scope")]
+        nb = 0
+        for ln, clause in p_schema.judge(c, brecs, "u8blob"):
+            if clause not in ("error", "untranslated"):
+                continue
+            nb += 1
+            if nb == 1:
+                rec = brecs[ln - 1]
+                c.violation({"module": "Utf8", "clause": "blobrepair", "field": [x for x in rec["path"] if x != "@blob"][max(0, rec["path"].index("@blob") - 1)]},
+                            "a history blob that needs UTF-8 repair and holds nothing to translate did not leave the interceptor repaired: %s"
+                            % json.dumps(rec)[:400], {"kind": "obligation", "record": rec})
+        extra.update({"blob_repair_obligations": len(brecs), "blob_repair_violations": nb})
     c.coverage.update(extra)
     samples = [{"obligation": obligs[0], "record": recs[0]}, {"obligation": obligs[-1], "record": recs[-1]}]
     return c.finish(samples)
